@@ -682,9 +682,10 @@ func C01(c *vf.Ctx) {
 			{Small: true, Manual: true, Soft: true, Threads: thr3},
 			{Small: false, Manual: true, Threads: thr3},
 			{Small: true, GateU: true, Threads: thr3},
+			{Small: true, Soft: true, GateU: true, Threads: thr3},
 		},
-		kinds:   []string{"start", "hstep", "relw", "deliver", "relu"},
-		weights: map[string]int{"newstream": 2, "invoke": 1, "op": 10, "hstep": 8, "relw": 10, "deliver": 10, "relu": 4},
+		kinds:   []string{"start", "hstep", "relw", "deliver", "relu", "cancel"},
+		weights: map[string]int{"newstream": 2, "invoke": 1, "op": 10, "hstep": 8, "relw": 10, "deliver": 10, "relu": 4, "cancel": 1},
 		tail: func(w *sys.World, rng *rand.Rand, ts *tailState) {
 			// graceful end: everything flows, both sides half-close, receivers drain
 			for i := 0; i < 6; i++ {
